@@ -199,3 +199,17 @@ def run(ctx):
         "equality with the three special bytes only); traces use real bytes incl. 0x00/0x7F/0x80/0xFF",
         "DsvCursor booleans specified as 'bytes remain at the new position'",
     ]
+
+# MUTANTS (scratch worktree, VERIF_REPO=..., quick tier, model stage skipped, F1 listed as known; all exit 1):
+#  M6  cursor.rs goto_row: newlines_select1(n - 1) -> (n)                  -> caught (trace row n=1 + replay)
+#  M7  cursor.rs DsvRow::get: `at_newline() ||` check dropped               -> caught (trace get + replay)
+#  M9  cursor.rs next_row navigates with markers instead of newlines        -> caught (trace rows, event 2 + replay)
+#  M17 cursor.rs goto_row returns true even when it lands at the end        -> caught (trace row n=nrows + replay)
+#  M8b index_lightweight.rs markers_select1 picks the FIRST of equal rank entries (issue-#196 shape)
+#      -> caught (trace: slice panic inside iteration over a text with a >64-byte field, logged as r=-2);
+#      first run exposed an unguarded current_field() call in the harness (fixed: every call is guarded)
+#  M8  (partition_point -> binary_search) is equivalent on rustc 1.95, see checks/c20.py
+#  FIX hooks/FIX-C21-trailing-empty-field.patch applied -> trace 18957/18957 events accepted with NO known-finding
+#      skips, replay 0 mismatches (so F1 is the only deviation the check sees, and the patch removes it)
+#  spec-level sanity: IterFields that stops when NextField reports 0 (the F1 protocol) -> MC_Dsv SplitInv violated
+#      at t = <<D>> (",").
